@@ -134,10 +134,16 @@ theorem image_dtype_kept (N : Numerics) (hN : N.Sane) (steps : List (T × Snap))
   simp only [Tree.get, Snap.get] at this
   rw [this]; exact ⟨rfl, hd, rfl⟩
 
-/-- the flat layout is used only on request and only when the scene is empty; the bucket tree
-put under either key is the same value (`record` does not depend on the layout) -/
-theorem layoutKey_flat_iff (w e : Bool) : layoutKey w e = "/" ↔ (w = false ∧ e = true) := by
-  cases w <;> cases e <;> simp [layoutKey]
+/-- the flat layout is used only on request, only when the scene is empty and only when no other
+node clashes with the buckets' coordinates; the bucket tree put under either key is the same value
+(`record` does not depend on the layout) -/
+theorem layoutKey_flat_iff (w e c : Bool) :
+    layoutKey w e c = "/" ↔ (w = false ∧ e = true ∧ c = false) := by
+  cases w <;> cases e <;> cases c <;> simp [layoutKey]
+
+/-- a result is always produced under one of the two keys (no clash makes the run fail) -/
+theorem layoutKey_total (w e c : Bool) : layoutKey w e c = "/" ∨ layoutKey w e c = "/bucket" := by
+  cases w <;> cases e <;> cases c <;> simp [layoutKey]
 
 end record
 
